@@ -57,6 +57,21 @@ value (thorough: all three; quick: one drawn from ctx.rng), plus "no caller laye
 syntax default is effective) and "planted syntax default alone".  empty-winner: the visible probes of all three sections
 with the EMPTY STRING in the winning caller layer above marker-carrying layers.
 
+FORM entries of the effect table (cfgeffect_util.MARKUP_FORM_EFFECTS / CSS_FORM_EFFECTS): the plain entries show every
+option on ONE abbreviation, so a consumer that sits on a path only another abbreviation feature reaches (the writer of the
+`!important` flag, the value list, the last declaration of the output, a nested / repeated / attribute carrying element)
+is never judged.  The string-valued options (stylesheet.after in the middle and at the very end of the output,
+stylesheet.between, output.newline, stylesheet.intUnit / floatUnit; output.selfClosingStyle, attributeQuotes, indent,
+newline, baseIndent) are repeated on every such form with the text the documentation states for the form; same layer
+stacks and values (the empty string always among them) as the plain entries.
+
+THE KEY-SHAPE TABLE (gen_key_shapes): the statement speaks of EVERY snippet and variable key, THE TABLE plants one
+all-lower-case probe key per section.  Keys in every letter-case pattern, with digits and with the separators the
+abbreviation syntax allows in a name, and re-cased names of built-in keys (KEY_SHAPES) x syntax names of the effect table x
+winning layer = each of the six layers; the key alone, or with its CASE SIBLINGS defined by the other layers under their
+own markers (markup; the stylesheet snippet search is case-insensitive by documentation, so no siblings there).  Judged on
+Config (whole dicts) and by the marker clause through expand() of the abbreviation that names the key as written.
+
 WHAT "UNKNOWN SYNTAX" MEANS (decided by running the real code, see report in known_findings.d/config.json):
 SYNTAX_CONFIG and the global config are ONE name space shared by type names and syntax names (same in upstream
 Emmet).  A name is *unknown* when it is neither listed in SYNTAXES nor a key of SYNTAX_CONFIG; for such names
@@ -446,7 +461,13 @@ def observe_expand(tb, case, ty, syn, expected, installed, patches, fails):
             _FLAT_CACHE.clear()
         _FLAT_CACHE[fk] = outcome(lambda: emmet.expand(abbr, copy.deepcopy(flat), {}))
     ref = _FLAT_CACHE[fk]
-    if out != ref:
+    # Both runs raise and the effective configuration holds a snippet / variable value that is no string (outside the
+    # documented value type; random stream only): WHICH of several invalid values is met first depends on the order of
+    # the merged dict's keys (the layered merge keeps the position of the least specific definition), so the error
+    # class says nothing about the effective values -- not judged.
+    undocumented = out[0] == 'exc' and ref[0] == 'exc' and out != ref and any(
+        not isinstance(v, str) for sec in ('snippets', 'variables') for v in flat[sec].values())
+    if out != ref and not undocumented:
         fails.append(('expand', 'expand(%r) with the layered configuration gives %r, with the flattened effective '
                       'configuration %r' % (abbr, out, ref)))
     # the winning layer's marker is what the output shows
@@ -686,7 +707,9 @@ def gen_effects(ctx, tb, thorough):
       stacked  every less specific caller layer defines it with another value
       planted  a planted syntax-defaults entry defines it with another value (known names only)
     plus: no caller layer at all, and a planted syntax-defaults entry alone.  Thorough: all variants; quick: every
-    (syntax name, option, L, v) with ONE variant drawn from ctx.rng."""
+    (syntax name, option, L, v) with ONE variant drawn from ctx.rng; for the FORM entries (same option, abbreviation with
+    another feature: `!important`, several values, last declaration, nested / repeated / attribute carrying element) quick:
+    every (syntax name, entry, v) with ONE winning layer and variant drawn from ctx.rng."""
     rng = ctx.rng
     cases = []
     for ty in tb.base['SYNTAXES']:
@@ -701,10 +724,14 @@ def gen_effects(ctx, tb, thorough):
                 if plantable:
                     for vi in (range(k) if thorough else [rng.randrange(k)]):
                         cases.append(effect_case(ty, syn, cls, e, {2: e.values[vi]}, 'planted-alone'))
-                for L in (3, 4, 5):
-                    if L == 4 and syn == ty:
-                        continue          # one and the same dict of the global config
+                layers = [L for L in (3, 4, 5) if not (L == 4 and syn == ty)]   # ty == syn: one and the same dict
+                # FORM entries (the option on another abbreviation feature, cfgeffect_util.*_FORM_EFFECTS): quick =
+                # every (syntax name, entry, value) with ONE winning layer drawn from ctx.rng
+                pick = None if thorough or not e.form else [rng.choice(layers) for _ in range(k)]
+                for L in layers:
                     for vi in range(k):
+                        if pick is not None and pick[vi] != L:
+                            continue
                         variants = ['alone'] + (['stacked'] if L > 3 else []) + (['planted'] if plantable else [])
                         for variant in (variants if thorough else [rng.choice(variants)]):
                             assign = {L: e.values[vi]}
@@ -742,6 +769,89 @@ def gen_empty_winner(tb, thorough):
                         where[sec][vis[0]] = ''
                         c['class'] = cls
                         cases.append(c)
+    return cases
+
+
+# ---- KEY SHAPES.  The statement quantifies over EVERY snippet and variable key; the table above plants one all-lower-case
+# probe key per section.  A consumer that normalises the key before the lookup (case folding, stripping a separator)
+# returns the effective value of ANOTHER key, or none, while Config(...) still holds the right dict.  Shapes: the
+# characters the abbreviation syntax allows in an element name / a `${variable}` name (documented syntax, hard-coded:
+# ASCII letters of either case, digits, '-', ':', '_', '!' -- https://docs.emmet.io/abbreviations/syntax/, upstream
+# abbreviation tokenizer `isName`; non-ASCII letters are no name characters), in every case pattern, and the re-cased
+# names of built-in keys (cheat sheet: a, btn, bq, link, inp / lang, charset, locale).
+# Stylesheet snippets are matched by the documented FUZZY, case-insensitive search, so for them only a key that has no
+# case sibling (planted or built-in) has a stated result: case shapes of a fresh key, without siblings.
+KEY_SHAPES = {
+    ('markup', 'snippets'): ['Zzq', 'zzQ', 'zZq', 'ZZQ', 'zz:q', 'zz-q', 'zz_q', 'zzq2', 'zz!q', 'Zz:Q', 'Zz-q2',
+                             'Btn', 'BQ', 'Link', 'A', 'inP'],
+    ('markup', 'variables'): ['Zzv', 'zzV', 'zZv', 'ZZV', 'zz-v', 'zz_v', 'zzv2', 'Zz-V2', 'Lang', 'CHARSET', 'locaLe'],
+    ('stylesheet', 'snippets'): ['Zzq', 'zzQ', 'zZq', 'ZZQ'],
+}
+KEY_SHAPE_ABBR = {
+    ('markup', 'snippets'): ('%s', 'span.%s'),
+    ('markup', 'variables'): ('p[title=${%s}]{${%s}}', '%s'),
+    ('stylesheet', 'snippets'): ('%s', 'zzprop:%s'),
+}
+KEY_SHAPE_VARIANTS = ('pure', 'alone', 'stacked')
+
+
+def case_siblings(key):
+    """The other spellings of the key that differ in letter case only."""
+    sibs = [key.lower(), key.upper(), key.capitalize(), key.swapcase()]
+    return [k for k in dict.fromkeys(sibs) if k != key]
+
+
+def shape_class(key):
+    cased = 'lower' if key == key.lower() else 'upper' if key == key.upper() else 'mixed'
+    sep = ''.join(sorted(set(ch for ch in key if not ch.isalpha() and not ch.isdigit())))
+    return cased + ('+digit' if any(ch.isdigit() for ch in key) else '') + ('+' + sep if sep else '')
+
+
+def gen_key_shapes(ctx, tb, thorough):
+    """For every syntax name of the effect table x section x key shape x winning layer L (all six): the key is planted
+      pure     in L alone, nothing else
+      alone    in L alone; every OTHER layer defines the key's case siblings (with that layer's marker)
+      stacked  in L and every less specific layer; every more specific layer defines the case siblings
+    (siblings: markup only, see KEY_SHAPES).  The sibling's effective value always comes from another layer than the
+    key's, so a lookup that lands on a sibling shows a foreign marker.  Judged by the marker clause through expand() of
+    the abbreviation that names the key as written, and by the whole-dict clauses on Config.  Thorough: all variants;
+    quick: one variant per (name, section, key, L) drawn from ctx.rng."""
+    rng = ctx.rng
+    cases = []
+    for ty in tb.base['SYNTAXES']:
+        for syn, cls in effect_names(tb, ty, thorough):
+            for sec in SECTIONS:
+                shapes = KEY_SHAPES.get((ty, sec))
+                if not shapes:
+                    continue
+                abbr_t, val_t = KEY_SHAPE_ABBR[(ty, sec)]
+                with_sibs = ty == 'markup'
+                for key in shapes:
+                    for L in range(6):
+                        if L == 2 and cls == 'unknown':
+                            continue
+                        if L == 4 and syn == ty:
+                            continue
+                        variants = KEY_SHAPE_VARIANTS if with_sibs else ('pure', 'stacked')
+                        for variant in (variants if thorough else [rng.choice(variants)]):
+                            bits = [i == L or (variant == 'stacked' and i < L) for i in range(6)]
+                            if cls == 'unknown':
+                                bits[2] = False
+                            c = cell_case(ty, syn, sec, bits, key, val_t, abbr=abbr_t.replace('%s', key), kind='keyshape')
+                            if with_sibs and variant != 'pure':
+                                sib_bits = [not b and (variant == 'alone' or i > L) and not (i == 2 and cls == 'unknown')
+                                            for i, b in enumerate(bits)]
+                                for sk in case_siblings(key):
+                                    sc_ = cell_case(ty, syn, sec, sib_bits, sk, val_t)
+                                    c['patches'] += sc_['patches']
+                                    for name, layer in sc_['global'].items():
+                                        c['global'].setdefault(name, {}).setdefault(sec, {}).update(layer[sec])
+                                    if sc_['user']:
+                                        c['user'].setdefault(sec, {}).update(sc_['user'][sec])
+                            c['variant'] = variant
+                            c['shape'] = shape_class(key)
+                            c['class'] = cls
+                            cases.append(c)
     return cases
 
 
@@ -1079,7 +1189,7 @@ def run_cases(ctx, tb, model, cases, label, pool, xmodel=None):
     c['spec_lookups'] += n_spec
 
 
-EFFECT_KINDS = ('effect', 'empty-winner')
+EFFECT_KINDS = ('effect', 'empty-winner', 'keyshape')     # kinds of which the thorough in-Coq tie takes a sample per group
 
 
 def coq_expand_tie(ctx, thorough):
@@ -1172,6 +1282,11 @@ def cover_case(ctx, tb, case, sm):
     else:
         if kind == 'empty-winner':
             ctx.cover('empty-winner:%s:%s:%s' % (ty, case['sec'], ''.join(map(str, case['bits']))))
+        if kind == 'keyshape':
+            ctx.cover('keyshape:%s:%s:%s:%s' % (ty, case['sec'], case.get('shape'), case.get('variant')))
+            ctx.cover('keyshape-winner:%s' % LAYERS[max(i for i, b in enumerate(case['bits']) if b)])
+            if sm['expand'] is not None:
+                ctx.cover('keyshape-expand:%s:%s:%s' % (ty, case['sec'], sm['expand']['visible'] or sm['expand']['out'][0]))
         multi = 0
         for sec in SECTIONS:
             for pat, n in (sm['patterns'].get(sec) or {}).items():
@@ -1203,6 +1318,7 @@ def run(ctx):
     rnd = gen_random(ctx, tb, n_rand)
     effects = gen_effects(ctx, tb, thorough)      # after gen_random: the random stream of earlier runs is unchanged
     effects += gen_empty_winner(tb, thorough)
+    shapes = gen_key_shapes(ctx, tb, thorough)    # after every earlier consumer of ctx.rng
     ctx.cov['rule'] = (
         'EXHAUSTIVE table: both abbreviation types x every syntax name (known: SYNTAXES[type]; cross: syntaxes of the other '
         'type; pseudo: keys of SYNTAX_CONFIG that are no listed syntax %r; unknown: %r) x {variables, snippets, options} x '
@@ -1219,7 +1335,20 @@ def run(ctx):
         'caller layer at all (real built-in / real syntax default effective) and a planted syntax default alone; on the '
         'unpatched tables, so the real syntax defaults (jsx.enabled of jsx/svelte, output.selfClosingStyle of xml/xsl/xhtml, '
         'markup.attributes of jsx/vue, stylesheet.after/between of sass/stylus) are among the beaten layers; the output must '
-        'show the documented effect of the effective value (and equal the flattened run).  Empty-winner cells: visible probe '
+        'show the documented effect of the effective value (and equal the flattened run).  FORM entries of the effect table '
+        '(%d markup + %d stylesheet, cfgeffect_util.MARKUP_FORM_EFFECTS / CSS_FORM_EFFECTS): the string-valued options on '
+        'abbreviations with ANOTHER FEATURE, so that a consumer reached only through that feature is judged too -- '
+        'stylesheet.after (before a following declaration and as the last thing of the output), stylesheet.between, '
+        'output.newline, stylesheet.intUnit / floatUnit on declarations of the forms %r (`!important` flag, several values, '
+        'float, colour, flag without value); output.selfClosingStyle / attributeQuotes / indent / newline / baseIndent on '
+        'nested, repeated and attribute carrying elements; same layer stacks (%s).  KEY SHAPES (gen_key_shapes; the '
+        'statement speaks of EVERY snippet and variable key): syntax names as for the effect table x keys %r (every letter '
+        'case pattern, digits, the separators the abbreviation syntax allows in a name, re-cased names of built-in keys) x '
+        'winning layer = each of the six layers, the key planted in that layer alone | alone while every other layer '
+        'defines the key\'s case siblings under that layer\'s marker | in the layer and every less specific one while every '
+        'more specific layer defines the case siblings (%s; stylesheet snippets are found by the documented '
+        'case-insensitive fuzzy search: no siblings there); observed on Config and through expand() of the abbreviation '
+        'that names the key as written: the winner\'s marker and no other.  Empty-winner cells: visible probe '
         'of every section with the EMPTY STRING in the winning caller layer above marker-carrying layers.  Aliased configurations: the caller\'s dictionaries share objects '
         'with each other or ARE the live built-in tables (user section is DEFAULT_CONFIG[section], global config is '
         'SYNTAX_CONFIG, the user config is also a global layer).  Plus corpus and %d random configurations (absent/unknown '
@@ -1230,6 +1359,11 @@ def run(ctx):
            {ty: [x for x, _ in effect_names(tb, ty, thorough)] for ty in tb.base['SYNTAXES']},
            len(fx.MARKUP_EFFECTS), len(fx.CSS_EFFECTS), sorted(set(e.key for es in fx.EFFECTS.values() for e in es)),
            'all three variants' if thorough else 'one variant per (name, option, layer, value) drawn from the seeded rng',
+           len(fx.MARKUP_FORM_EFFECTS), len(fx.CSS_FORM_EFFECTS), [f[0] for f in fx.CSS_FORMS],
+           'every winning layer and variant' if thorough else 'one winning layer and variant per (name, entry, value) drawn '
+           'from the seeded rng',
+           {'%s/%s' % k: v for k, v in KEY_SHAPES.items()},
+           'all three variants' if thorough else 'one variant per (name, section, key, layer) drawn from the seeded rng',
            n_rand))
     with multiprocessing.Pool(common.NPROC) as pool:
         if tb.ids is None:
@@ -1239,6 +1373,7 @@ def run(ctx):
         run_cases(ctx, tb, model, natural, 'natural', pool, xmodel)
         run_cases(ctx, tb, model, aliased, 'aliased', pool, xmodel)
         run_cases(ctx, tb, model, effects, 'effects', pool, xmodel)
+        run_cases(ctx, tb, model, shapes, 'keyshapes', pool, xmodel)
         run_cases(ctx, tb, model, rnd, 'random', pool, xmodel)
     if xmodel is not None:
         coq_expand_tie(ctx, thorough)
@@ -1256,7 +1391,8 @@ def run(ctx):
         'types': list(tb.base['SYNTAXES']),
         'syntax_names': {ty: [s for s, _ in names_for(tb, ty)] for ty in tb.base['SYNTAXES']},
         'sections': list(SECTIONS), 'layer_subsets': 64, 'probes_per_cell': 2, 'table_cells': len(table),
-        'natural_cells': len(natural), 'aliased_cases': len(aliased),
+        'natural_cells': len(natural), 'aliased_cases': len(aliased), 'key_shape_cases': len(shapes),
+        'key_shapes': {'%s/%s' % k: v for k, v in KEY_SHAPES.items()},
         'effect_cases': len(effects), 'effect_entries': [e.name for es in fx.EFFECTS.values() for e in es]}
     ctx.assumptions += [
         'values of options/snippets/variables are abstracted to ids in the model comparison (the property is about WHICH '
